@@ -933,6 +933,11 @@ def decode(data, offset=0, size=None):
     if size < 2:
         raise DecodeError("less than two header bytes can't make a valid pdu")
 
+    if offset + size < len(data):
+        # a PDU is decoded from its own bytes only: a TLV inside an
+        # aggregated PDU must not extend into whatever follows it
+        data = data[:offset+size]
+
     ptype = (struct.unpack_from('>H', data, offset)[0] >> 6) & 0b1111
     pdu_type = pdu_type_map.get(ptype, UnknownProtocolDataUnit)
     return pdu_type.decode(data, offset, size)
